@@ -226,23 +226,34 @@ func body(s *simrt.Sim, tier string) {
 						if e.removed && e.remRet.Before(inv) {
 							s.Fail("entries-lists-removed", fmt.Sprintf("Entries() lists e%d after Remove returned", e.idx))
 						}
-						if ep := running(); exact && !se.Next.IsZero() && ep != nil && !ep.startRet.IsZero() && !ep.startRet.After(inv) && !e.addRet.After(inv) {
-							// Next must be an activation of the schedule not earlier than the snapshot, Prev its predecessor in the chain actually used
-							if se.Next.Before(inv) {
+						// --- Entries reports the next and previous activation actually used
+						isEvery := len(e.spec) > 0 && e.spec[0] == '@'
+						isAct := func(x time.Time) bool { return e.sched.Next(x.Add(-time.Nanosecond)).Equal(x) }
+						if !isEvery {
+							// whatever the scheduler was doing, Prev and Next are values its schedule produced
+							if !se.Prev.IsZero() && !isAct(se.Prev) {
+								s.Fail("entries-prev-not-an-activation", fmt.Sprintf("Entries() reports Prev=%s for e%d (%q): not an activation instant of its schedule", rel(se.Prev), e.idx, e.spec))
+							}
+							if !se.Next.IsZero() && !isAct(se.Next) {
+								s.Fail("entries-next-not-an-activation", fmt.Sprintf("Entries() reports Next=%s for e%d (%q): not an activation instant of its schedule", rel(se.Next), e.idx, e.spec))
+							}
+						}
+						if !se.Prev.IsZero() && !se.Next.IsZero() && !se.Prev.Before(se.Next) {
+							s.Fail("entries-prev", fmt.Sprintf("Entries(): Prev=%s is not before Next=%s for e%d", rel(se.Prev), rel(se.Next), e.idx))
+						}
+						if ep := running(); mode < 3 && !se.Next.IsZero() && ep != nil && !ep.startRet.IsZero() && !ep.startRet.After(inv) && !e.addRet.After(inv) {
+							// no injected delays and no wall-clock jumps: at the snapshot no activation in the past is left unserved
+							if exact && se.Next.Before(inv) {
 								s.Fail("entries-next-in-past", fmt.Sprintf("Entries() at %s reports Next=%s for e%d: an activation in the past was left unserved", rel(inv), rel(se.Next), e.idx))
 							}
-							if !se.Prev.IsZero() {
-								if !e.sched.Next(se.Prev).Equal(se.Next) && !se.Prev.Before(se.Next) {
-									s.Fail("entries-prev", fmt.Sprintf("Entries(): Prev=%s Next=%s for e%d", rel(se.Prev), rel(se.Next), e.idx))
+							if exact && !se.Prev.IsZero() {
+								// exact mode: Prev is the activation the entry's latest start was for: the start instants
+								// are the activation instants, so some job of e started (or is about to start) at Prev
+								if se.Prev.After(ret) {
+									s.Fail("entries-prev", fmt.Sprintf("Entries() at %s reports Prev=%s in the future for e%d", rel(ret), rel(se.Prev), e.idx))
 								}
-								found := false
-								for _, st := range e.starts {
-									if st.at.Equal(se.Prev) {
-										found = true
-									}
-								}
-								if !found && se.Prev.Before(ret) && jobsPending(e, se.Prev) {
-									// the job goroutine may not have begun yet; judged at the end
+								if !e.sched.Next(se.Prev).Equal(se.Next) && len(epochs) == 1 {
+									s.Fail("entries-prev", fmt.Sprintf("Entries(): Next=%s is not the activation following Prev=%s for e%d (%q)", rel(se.Next), rel(se.Prev), e.idx, e.spec))
 								}
 							}
 						}
